@@ -266,6 +266,15 @@ def run(prefix, ops, wcfgs, allowed_ops, act, slot_w=False, dev_check=True, leve
         if not do_step(step, EXIT, 0):
             return
         step += 1
+    if level == 0:
+        # nothing done to this object may affect other objects of the class: a fresh instance pulses its Event twice
+        f = P()
+        got = []
+        f.param.watch(lambda e: got.append((e.old, e.new)), 'e')
+        f.e = True
+        f.e = True
+        check(prefix + '.values', got == [(False, True), (False, True)] and f.e is False and p.e is False,
+              {'fresh_instance_event': True, 'got': repr(got)})
 
 
 def _diagnose(prefix, rt, mt, info):
